@@ -649,11 +649,10 @@ static size_t copy_chars (UCHAR* from, UCHAR* to, size_t count, interactive_t* i
         case TS_SB_IAC:
           if (from[i] == IAC)
             {
-              if (ip->sb_pos >= SB_SIZE)
-                break;
-              /* IAC IAC is a quoted IAC char */
-              ip->sb_buf[ip->sb_pos++] = INT_CHAR(IAC);
+              /* IAC IAC is a quoted IAC char (dropped, like other data, when the buffer is full) */
               ip->state = TS_SB;
+              if (ip->sb_pos < SB_SIZE)
+                ip->sb_buf[ip->sb_pos++] = INT_CHAR(IAC);
               break;
             }
           /* SE counts as going back into data mode */
